@@ -135,19 +135,24 @@ def chain_work(payload):
         leafs = _leafsets(ch)
         order = [d for _, d in ch.depth_first()]
         nv = len(list(ch))
-        for lam in ((0.25, 0.4) if n <= 4 else (0.3,)):
+        for lam in ((0.25, 0.4, ("edge", 1e-4), ("edge", 1e-7)) if n <= 4 else (0.3,)):
             # masses: m(node) = sum(leaf masses) + Q * t(node), t(top) = 1, t(child) = lam * t(parent)
+            # edge alphabet: every intermediate state within eps of its threshold (consecutive near-threshold decays)
+            # and nearly collinear decays; the angles are ill-conditioned there: weaker tolerance
+            edge = isinstance(lam, tuple)
             t = {ch.top: 1.0}
             for d in order:
                 for o in d.outs:
                     if o in leafs:
-                        t[o] = lam * t[d.core]
+                        t[o] = (0.5 if edge else lam) * t[d.core]
             mass = {}
             for p in leafs:
-                mass[p] = sum(fm[str(x)] for x in leafs[p]) + Q * t[p]
+                mass[p] = sum(fm[str(x)] for x in leafs[p]) + (Q * t[p] if (not edge or p == ch.top) else lam[1] * t[p])
             for f in finals:
                 mass[f] = fm[str(f)]
-            if n <= 3:
+            if edge:
+                per = [list(itertools.product([-0.99999, 0.3, 0.99999], [-0.7, 2.9]))] * nv
+            elif n <= 3:
                 per = [list(itertools.product(cos_l, phi_l))] * nv
             elif n == 4:
                 per = [list(itertools.product(cos_l, phi_l))[::2]] * nv  # 8 per vertex -> 512 events
@@ -184,6 +189,11 @@ def chain_work(payload):
                 res.violation("chain:exception", "chain %s: %s: %s" % (ch, type(e).__name__, e), case)
                 continue
             res.case(nontrivial_key=("chain", n, ci, lam), n=N, outcome=("chain", n, ci))
+            if edge:
+                for j in range(nv):
+                    dphi = (np.asarray(phi2[j]) - arr[:, j, 1] + PI) % (2 * PI) - PI
+                    res.stat_max("edge_abs_dev_phi", float(np.abs(dphi).max()))
+                    res.stat_max("edge_abs_dev_cos", float(np.abs(np.asarray(cos2[j]) - arr[:, j, 0]).max()))
             for p, m in mass.items():
                 got = np.asarray(ms2[p]) if p in ms2 else None
                 # squared masses: m = sqrt(E^2-p^2) is ill-conditioned for the massless final particle
@@ -193,11 +203,11 @@ def chain_work(payload):
             for j in range(nv):
                 c2 = np.asarray(cos2[j])
                 f2 = np.asarray(phi2[j])
-                if not np.allclose(c2, arr[:, j, 0], atol=1e-9):
+                if not np.allclose(c2, arr[:, j, 0], atol=1e-5 if edge else 1e-9):
                     k = int(np.argmax(np.abs(c2 - arr[:, j, 0])))
                     res.violation("roundtrip:cos", "chain %s vertex %d: cos(theta) returned %r, input %r" % (ch, j, float(c2[k]), float(arr[k, j, 0])), case)
                 dphi = (f2 - arr[:, j, 1] + PI) % (2 * PI) - PI
-                if not np.allclose(dphi, 0, atol=1e-9):
+                if not np.allclose(dphi, 0, atol=1e-4 if edge else 1e-9):
                     k = int(np.argmax(np.abs(dphi)))
                     res.violation("roundtrip:phi", "chain %s vertex %d: phi returned %r, input %r" % (ch, j, float(f2[k]), float(arr[k, j, 1])), case)
     res.sample({"part": "chain", "n": n, "topologies": idxs[:3], "example": str(chains[idxs[0]])}, limit=1)
